@@ -853,6 +853,15 @@ def gh_branch(stmts, st, g, tag):
             continue
         if k == "NullStmt":
             continue
+        if k == "DeclStmt":
+            for vd in kids(s):
+                if vd.get("kind") != "VarDecl" or not kids(vd) or ity(vd) not in ("int", "u32", "u64", "u8"):
+                    raise TranslateError("declaration of %s in the %s branch of genHInfo" % (vd.get("name"), tag))
+                v = zcast(zeval(kids(vd)[0], st), ity(kids(vd)[0]), ity(vd), vd["name"])
+                nm = st.fresh(vd["name"])
+                st.lets.append("let %s := %s in" % (nm, v.s))
+                st.env[vd["name"]] = Z(nm)
+            continue
         raise TranslateError("statement not understood in the %s branch of genHInfo: %s" % (tag, src_text(s)[:80]))
     if table is None:
         raise TranslateError("the %s branch of genHInfo does not write the output table" % tag)
